@@ -119,6 +119,113 @@ class Gen5(M.Gen):
         # pending left operand of a binary operator
         return ("sum", (a,), Prog(E(Un("diag_log", Arr(Bin("+", N(a), Un("count", Arr(inner, N(0)))))))))
 
+    def valueless_block(self, nmin=2, nmax=4, xvar=False):
+        """the statements of a block of nmin..nmax statements whose LAST statement leaves no value (an assignment, a private
+        assignment); the earlier ones are of any kind: markers, assignments, expressions that leave one or several values (also `true`,
+        which the construct would accept - the separator has dropped it)"""
+        r = self.rng
+        ss = []
+        for _ in range(r.randint(nmin, nmax) - 1):
+            k = r.randint(0, 5)
+            if k == 0: ss.append(self.mark())
+            elif k == 1: ss.append(Asg(r.choice(["gv", "_y"]), N(r.randint(0, 9))))
+            elif k == 2: ss.append(E(Arr(N(8), N(9))))
+            elif k == 3: ss.append(E(N(r.randint(0, 9))))
+            elif k == 4: ss.append(E(B(True)))
+            else: ss.append(Loc("_p", Arr(N(3))))
+        ss.append(r.choice([Asg("gw", N(r.randint(0, 9))), Asg("_z", Var("_x") if xvar else N(1)), Loc("_q", N(2))]))
+        return ss
+
+    def pending(self, inner):
+        """the construct as one operand of a half-built expression; (a, b, program): printed as [a, <value>, b]"""
+        r = self.rng
+        a, b = r.randint(10, 19), r.randint(20, 29)
+        k = r.random()
+        if k < 0.2:
+            st = E(Un("diag_log", Arr(N(a), Un("call", Code(E(Arr(N(1), N(2))), E(inner))), N(b))))
+        else:
+            st = E(Un("diag_log", Arr(N(a), inner, N(b))))
+        if 0.2 <= k < 0.4:
+            return a, b, [E(Bin("spawn", N(0), Code(st))), E(N(0))]
+        return a, b, [st]
+
+    CONFIG_TEXT = "class R { class A {}; class B { class C {}; }; class D {}; };"
+    CONFIG_CONDS = ["gv = 1; gw = 2", "diag_log 5; _z = _x", "true; private _q = 2", "[8, 9]; gv = 3; gw = 4", "_y = configName _x; _z = 1"]
+
+    def noval(self):
+        """a block of several statements whose last statement leaves no value, as the body a construct with an exit behaviour takes a
+        value from (isNil, apply, count, select, findIf, the condition of while, waitUntil, configClasses, configProperties) or merely
+        ends (forEach), inside pending operands.  The property names the value the construct sees: nil.  The oracle is the same program
+        with an explicit `nil` as last statement of that block (info[2]): both must behave alike."""
+        r = self.rng
+        k = r.randint(0, 10)
+        arr = Arr(*[N(i) for i in range(1, r.randint(1, 3) + 1)])
+        pre = []
+        if k >= 9:
+            src = r.choice(self.CONFIG_CONDS)
+            cfg = Bin(">>", Nul("configFile"), S("R"))
+            pre = [E(Un("configparse__", S(self.CONFIG_TEXT)))]
+            if k == 9: mk = lambda t: Bin("configClasses", S(t), cfg)
+            else: mk = lambda t: Un("configProperties", Arr(cfg, S(t)))
+            subj, twin = mk(src), mk(src + "; nil")
+        else:
+            ss = self.valueless_block(xvar=k in (1, 2, 3, 4, 5))
+            if k == 0: mk = lambda blk: Un("isNil", blk)
+            elif k == 1: mk = lambda blk: Bin("apply", arr, blk)
+            elif k == 2: mk = lambda blk: Bin("count", blk, arr)
+            elif k == 3: mk = lambda blk: Bin("select", arr, blk)
+            elif k == 4: mk = lambda blk: Bin("findIf", arr, blk)
+            elif k == 5: mk = lambda blk: Bin("forEach", blk, arr)
+            elif k == 6: mk = lambda blk: Bin("do", Un("while", blk), Code(self.mark(S("body"))))
+            elif k == 7: mk = lambda blk: Un("waitUntil", blk)
+            else:        # the body of a loop that goes round, and whose last round decides: the value-less block is the inner one
+                mk = lambda blk: Bin("apply", arr, Code(E(Un("isNil", blk))))
+            subj, twin = mk(Code(*ss)), mk(Code(*(ss + [E(Nul("nil"))])))
+        st = self.rng.getstate()
+        a, b, body = self.pending(subj)
+        self.rng.setstate(st)
+        _, _, tbody = self.pending(twin)
+        # the config operators are outside the modelled fragment (the model knows no configparse__): implementation and twin only
+        return ("novalcfg" if pre else "noval", (a, b, Prog(*(pre + tbody))), Prog(*(pre + body)))
+
+    def leftover(self):
+        """a handler / case block / exitWith block of 2-4 statements that ends in a value-less statement (the construct contributes
+        nil) or in a value, entered while the frame that runs it - or the frames abandoned on the way - still hold 2-3 operands of the
+        abandoned expression: none of them may surface as the block's value, whatever the separators of the block do"""
+        r = self.rng
+        blk = lambda *ss: Code(*ss)
+        hs = self.valueless_block()
+        val = ""
+        if r.random() < 0.3:
+            val = str(r.randint(30, 39)); hs = hs + [E(N(int(val)))]
+        H = blk(*hs)
+        pend = [N(p) for p in r.sample([111, 222, 333], r.randint(2, 3))]
+        def hold(e):      # e as the last operand of an expression that has 2-3 operands pending when e runs
+            if r.random() < 0.6:
+                return Arr(*(pend + [e]))
+            x = e
+            for p in reversed(pend):
+                x = Bin("+", p, x)
+            return x
+        k = r.randint(0, 4)
+        if k == 0:      # throw from a nested frame (1-2 calls deep, the intermediate scope with pending operands of its own or not)
+            t = Un("throw", S("x"))
+            for lvl in range(r.randint(1, 2)):
+                t = Un("call", blk(E(t))) if r.random() < 0.6 else Un("call", blk(E(N(2)), E(Arr(N(444), t))))
+            inner = Bin("catch", Un("try", blk(E(hold(t)))), H)
+        elif k == 1:    # a case label evaluated inside an expression of the switch body
+            inner = Bin("do", Un("switch", N(1)), blk(E(hold(Bin(":", Un("case", N(1)), H)))))
+        elif k == 2:    # exitWith inside an expression of a called block
+            inner = Un("call", blk(E(hold(Bin("exitWith", Un("if", B(True)), H))), E(N(5))))
+        elif k == 3:    # a runtime error 0-1 scopes below the guarded block
+            f = Bin("select", Arr(N(1)), N(7))
+            if r.random() < 0.5: f = Un("call", blk(E(f)))
+            inner = Bin("except__", blk(E(hold(f))), H)
+        else:           # throw directly in the try block
+            inner = Bin("catch", Un("try", blk(E(hold(Un("throw", S("x")))))), H)
+        a, b, body = self.pending(inner)
+        return ("array3v", (a, b, val), Prog(*body))
+
     def looping(self):
         r = self.rng
         n = r.choice([40, 120, 300])
@@ -271,7 +378,13 @@ def main(replay=None):
             cases.append(("random", (), g.program()))
         for _ in range(60 if thorough else 12):
             cases.append(("loop", (), g.looping()))
+        for _ in range(4000 if thorough else 260):
+            cases.append(g.noval())
+        for _ in range(4000 if thorough else 260):
+            cases.append(g.leftover())
     res = M.run_programs(himpl, drv, [c[2] for c in cases])
+    twin_progs = sorted(set(c[1][2] for c in cases if c[0].startswith("noval") and len(c[1]) == 3))
+    twins = dict(zip(twin_progs, M.run_programs(himpl, drv, twin_progs))) if twin_progs else {}
     kinds, distinct, samples, nunsup, ndis = {}, set(), [], 0, 0
     for (kind, info, prog), d in zip(cases, res):
         kinds[kind] = kinds.get(kind, 0) + 1
@@ -289,6 +402,22 @@ def main(replay=None):
         if d["i_trace"].startswith(("CRASH", "TIMEOUT", "OOM", "EXCEPTION")) or d["i_final"].startswith(("CRASH", "TIMEOUT", "OOM", "EXCEPTION")):
             run.violation("implementation crashed or hung: " + d["i_final"][:80], rep)
             continue
+        # ---- property oracle 1a: a block whose last statement leaves no value yields nil to the construct that ends it - the same
+        # program with an explicit `nil` as the block's last statement is the reference
+        if kind.startswith("noval"):
+            tw = twins.get(info[2]) if len(info) == 3 else None
+            if tw is None or tw.get("text") is None:
+                run.violation("the twin of a value-less block was not run (machinery)", rep, found_input=False)
+                continue
+            rep["twin_text"], rep["twin_impl_final"] = tw["text"], tw["i_final"][:600]
+            if tw["i_final"].startswith(("CRASH", "TIMEOUT", "OOM", "EXCEPTION")):
+                run.violation("implementation crashed or hung: " + tw["i_final"][:80], dict(rep, text=tw["text"]))
+                continue
+            if d["i_final"] != tw["i_final"]:
+                run.violation("a finished block whose last statement leaves no value does not contribute nil: the construct that takes the "
+                              "block's value behaves differently when `nil` is written out as the block's last statement (twin_text): "
+                              "%s, with the explicit nil %s" % (d["i_final"][:120], tw["i_final"][:120]), rep)
+                continue
         # ---- property oracle 2: the enclosing expression's pending operands are intact, one value contributed
         marks = [m[2:-1] for m in d["i_final"].split(",M<")[1:]] if ",M<" in d["i_final"] else []
         marks = [m.split(">,")[0] if ">," in m else m.rstrip(">") for m in d["i_final"].split("M<")[1:]]
@@ -302,7 +431,10 @@ def main(replay=None):
         marks = [m for m in marks if not m.startswith("VALUE ")][-1:]      # the enclosing expression is printed last
         if d["i_final"].startswith("2:") and d["m_final"].startswith("2:"):
             marks = []      # the program ends in a runtime error (a generated operand faults): the enclosing expression is never printed
-        if kind in ("array3", "array3n", "array3v") and marks:
+        if kind.startswith("noval") and (d["i_final"].startswith("2:") or not marks or split_top(marks[0]) is None or len(split_top(marks[0])) != 3
+                                or not marks[0].startswith("[%d," % info[0])):
+            marks = []      # ended in the error a nil condition raises (as the twin did), or the enclosing array is not what was printed last
+        if kind in ("array3", "array3n", "array3v", "noval", "novalcfg") and marks:
             first = marks[0]
             parts = split_top(first)
             a, b = info[0], info[1]
@@ -312,7 +444,9 @@ def main(replay=None):
             elif parts[0] != str(a) or parts[2] != str(b):
                 bad = "pending operands of the enclosing array changed: %s (expected %d .. %d)" % (first, a, b)
             elif kind == "array3v" and parts[1] != info[2]:
-                bad = "a guarded block that failed contributes the value of its handler's last statement (nil if none): %s, expected %s in the middle" % (first, info[2] or "nil (printed as nothing)")
+                bad = ("the construct contributes the value of the last statement of the block that ran last - the handler of a guarded block that "
+                       "failed, the chosen case block, the exitWith block - and nil if that statement leaves none: %s, expected %s in the middle"
+                       % (first, info[2] or "nil (printed as nothing)"))
             elif kind == "array3n":
                 inner = split_top(parts[1])
                 if inner is None or len(inner) != 2 or inner[0] != "1":
@@ -329,7 +463,7 @@ def main(replay=None):
             run.violation("operands accumulate across iterations: the loop body's region reached %d operands" % mx, rep)
             continue
         # ---- correspondence with the model
-        if "UNSUPPORTED" in d["m_trace"] or "UNSUPPORTED" in d["m_final"]:
+        if "UNSUPPORTED" in d["m_trace"] or "UNSUPPORTED" in d["m_final"] or kind == "novalcfg":
             nunsup += 1
             continue
         distinct.add(d["text"])
@@ -389,7 +523,12 @@ def main(replay=None):
                        "per-step trace and final observation), distinct by program text; plus histories of scheduled scripts (harness/h_sched.cpp, virtual "
                        "clock): a spawned script sleeps inside 1-3 nested scopes that hold pending operands (sums, arrays, if, forEach, a function in "
                        "a global) and is terminated by another script, by the main script or by itself, and failing evaluate_expression calls: the "
-                       "dropped work must not surface as the script's value")
+                       "dropped work must not surface as the script's value; plus two families judged by the property alone: blocks of 2-4 "
+                       "statements whose last statement leaves no value as bodies of isNil / apply / count / select / findIf / forEach / the condition "
+                       "of while / waitUntil / configClasses / configProperties inside pending operands (the construct must see nil: same "
+                       "observation as the twin program with `nil` written out as the block's last statement), and handlers / case blocks / "
+                       "exitWith blocks of 2-4 statements entered while 2-3 operands of the abandoned expression are still on the stack (the "
+                       "enclosing array shows nil, or the block's last value, in the middle)")
     run.cov["terminate_histories"] = nterm
     run.cov["input_distribution"] = kinds
     run.cov["unsupported_by_model"] = nunsup
